@@ -67,7 +67,7 @@ class Job:
         self.pid, self.spec, self.tier, self.shard, self.race = pid, spec, tier, shard, race
         self.sub = spec["sub"]
         self.kind = spec.get("kind", "rapid")
-        self.name = f"{self.sub}.{shard}" + (".race" if race else "")
+        self.name = f"{self.sub}.{shard}" + (".race" if race else "") + ("" if self.kind == "rapid" else "." + self.kind)
         self.dir = os.path.join(ROOT, ".build", pid, "jobs", self.name)
         self.seed = seed_for(verif_seed, self.sub, shard)
         self.checks = None
@@ -79,7 +79,7 @@ class Job:
 
     def run(self, binary):
         shutil.rmtree(self.dir, ignore_errors=True)
-        os.makedirs(self.dir)
+        os.makedirs(self.dir, exist_ok=True)
         env = goenv()
         env["VERIF_OUT"] = os.path.join(self.dir, "frag.json")
         env["VERIF_JOURNAL"] = self.dir
